@@ -84,3 +84,18 @@ Fixpoint fp_random (fuel : nat) (s : St) : St * option fp :=
       end
   end.
 End Rng.
+
+(* the constants the PrimeField interface publishes, computed from the modulus and the generator *)
+Definition f_num_bits : Z := Z.log2 p + 1.
+Definition f_capacity : Z := f_num_bits - 1.
+Fixpoint two_adicity (fuel : nat) (n : Z) : Z :=
+  match fuel with
+  | O => 0
+  | S f => if Z.even n && (0 <? n) then 1 + two_adicity f (n / 2) else 0
+  end.
+Definition f_S : Z := two_adicity 200 (p - 1).
+Definition f_two_inv : fp := finv (mkfp 2).
+Definition f_gen : fp := mkfp Params.generator.
+Definition f_rou : fp := fpow f_gen ((p - 1) / 2 ^ f_S).
+Definition f_rou_inv : fp := finv f_rou.
+Definition f_delta : fp := fpow f_gen (2 ^ f_S).
